@@ -246,7 +246,7 @@ def r_div(A, ctx, scope, rule="R-DIV", where=None):
                 continue
             compiled = f.njit or (f.cls is not None and (f.cls in A.prog.penalties or f.cls in A.prog.datafits)) \
                 or any(k.njit for k in [f.outer] if k is not None)
-            if not compiled:
+            if not compiled and not scope.get("py_level_strict"):
                 # interpreter level: only Python floats raise (results of jitclass slot
                 # calls); numpy scalars/arrays give inf with a warning
                 roles = set()
